@@ -16,6 +16,8 @@
 #include "bitserializer/types/std/vector.h"
 #include "bitserializer/types/std/map.h"
 #include "bitserializer/types/std/optional.h"
+#include "bitserializer/types/std/array.h"
+#include <array>
 #include "bitserializer/types/std/chrono.h"
 #include <chrono>
 
@@ -67,6 +69,7 @@ std::string show(const std::string& v) { return "s" + hexs(v); }
 std::string show(double v) { uint64_t b; std::memcpy(&b, &v, 8); char buf[24]; std::snprintf(buf, sizeof buf, "d%016llx", static_cast<unsigned long long>(b)); return buf; }
 std::string show(bool v) { return v ? "t" : "f"; }
 template <class T> std::string show(const std::optional<T>& v) { return v ? "?" + show(*v) : std::string("null"); }
+template <class T, size_t N> std::string show(const std::array<T, N>& v) { std::string r = "["; for (auto& e : v) { r += show(e); r += ","; } return r + "]"; }
 template <class T> std::string show(const std::vector<T>& v) { std::string r = "["; for (auto& e : v) { r += show(e); r += ","; } return r + "]"; }
 template <class T> std::string show(const std::map<std::string, T>& v) { std::string r = "{"; for (auto& [k, e] : v) { r += hexs(k) + "=" + show(e) + ","; } return r + "}"; }
 std::string show(const InnerL& v) { return "(" + show(v.a) + "," + show(v.s) + ")"; }
@@ -92,6 +95,14 @@ std::string loadTarget(const std::string& target, const std::string& bytes, bool
 	}
 	if constexpr (!isCsv) {
 		if (target == "vi") return loadInto<TArchive, std::vector<int>>(bytes, stream, opts);
+		// fixed-size targets: a document with more (or fewer) items than the target holds must end in an exception, never in a write
+		// behind the target (ASan watches the stack object)
+		if (target == "a4") return loadInto<TArchive, std::array<int, 4>>(bytes, stream, opts);
+		if (target == "ca4") {
+			int value[4] = { 0, 0, 0, 0 };
+			if (stream) { std::istringstream is(bytes); LoadObject<TArchive>(value, is, opts); } else LoadObject<TArchive>(value, bytes, opts);
+			return "ok [" + show(value[0]) + "," + show(value[1]) + "," + show(value[2]) + "," + show(value[3]) + ",]";
+		}
 		if (target == "vs") return loadInto<TArchive, std::vector<std::string>>(bytes, stream, opts);
 		if (target == "vvi") return loadInto<TArchive, std::vector<std::vector<int>>>(bytes, stream, opts);
 		if (target == "msi") return loadInto<TArchive, std::map<std::string, int>>(bytes, stream, opts);
